@@ -10,6 +10,8 @@ import (
 	"fmt"
 	"strings"
 	"unicode/utf8"
+
+	"github.com/ory/keto/internal/x/verifhook"
 )
 
 type (
@@ -118,6 +120,7 @@ func Lex(name, input string) *lexer {
 
 // next returns the next rune in the input.
 func (l *lexer) next() (r rune) {
+	verifhook.Point("lex.next")
 	if l.pos >= len(l.input) {
 		l.width = 0
 		return eof
